@@ -2,7 +2,7 @@
 C17 (source tie) — the hand-written model of `ValidatedRouteOrigin::validate`
 (`KM.Bgp.validateCovering` / `validateLoop`, Bgp/Validate.lean) equals the definition that the
 translator `pure_fns` regenerates from `/repo/src/server/bgp/analyser.rs` on every run
-(`Generated/PureFnsC17.lean`, `KM.Gen.ValidatedRouteOrigin.validate`).
+(`Generated/PureFnsC17.lean`, `KM.Gen.C17.ValidatedRouteOrigin.validate`).
 
 `valid_iff`, `invalid_iff`, `validate_eq_rfc6811` (Props/C17.lean) are about `KM.Bgp.validate`, which is
 the covering filter followed by `validateCovering`.  With `gen_validate_eq_model` the latter is tied to
@@ -23,7 +23,7 @@ namespace KM.Props.C17Src
 open KM.Bgp
 
 /-- Rust verdict ↦ model verdict. -/
-def toValidity : KM.Gen.RouteOriginValidity Roa → Validity
+def toValidity : KM.Gen.C17.RouteOriginValidity Roa → Validity
   | .Valid r => .valid r
   | .InvalidLength => .invalidLength
   | .InvalidAsn => .invalidAsn
@@ -31,11 +31,11 @@ def toValidity : KM.Gen.RouteOriginValidity Roa → Validity
   | .NotFound => .notFound
 
 /-- Rust `ValidatedRouteOrigin` ↦ model `Validated`. -/
-def toModel (v : KM.Gen.ValidatedRouteOrigin Ann Roa) : Validated :=
+def toModel (v : KM.Gen.C17.ValidatedRouteOrigin Ann Roa) : Validated :=
   ⟨v.route_origin, toValidity v.validity, v.disallowing⟩
 
 /-- `toModel` loses nothing. -/
-theorem toModel_injective (v w : KM.Gen.ValidatedRouteOrigin Ann Roa) (h : toModel v = toModel w) :
+theorem toModel_injective (v w : KM.Gen.C17.ValidatedRouteOrigin Ann Roa) (h : toModel v = toModel w) :
     v = w := by
   cases v with | mk vo vv vd =>
   cases w with | mk wo wv wd =>
@@ -46,7 +46,7 @@ theorem toModel_injective (v w : KM.Gen.ValidatedRouteOrigin Ann Roa) (h : toMod
 
 /-- The generated definition with the model's accessors plugged in. -/
 abbrev genLoop (a : Ann) (all : List Roa) :=
-  KM.Gen.ValidatedRouteOrigin.validate.loop (ω := Ann) (π := Roa) (fun r : Roa => r.asn)
+  KM.Gen.C17.ValidatedRouteOrigin.validate.loop (ω := Ann) (π := Roa) (fun r : Roa => r.asn)
     (fun r => r.pfx.covers a.pfx) Roa.effMax id a a.asn a.pfx.len all
 
 /-- What the model does with the result of its loop (`validateCovering`). -/
@@ -63,13 +63,13 @@ theorem gen_loop_eq_model (a : Ann) (all l : List Roa) :
   induction l with
   | nil =>
     intro inv same nonAs0
-    simp only [genLoop, KM.Gen.ValidatedRouteOrigin.validate.loop, KM.Gen.ValidatedRouteOrigin.validate.after,
+    simp only [genLoop, KM.Gen.C17.ValidatedRouteOrigin.validate.loop, KM.Gen.C17.ValidatedRouteOrigin.validate.after,
       validateLoop, finish, toModel]
     cases same <;> cases nonAs0 <;> simp [toValidity]
   | cons r tl ih =>
     intro inv same nonAs0
     simp only [genLoop] at ih
-    simp only [genLoop, KM.Gen.ValidatedRouteOrigin.validate.loop, validateLoop, id]
+    simp only [genLoop, KM.Gen.C17.ValidatedRouteOrigin.validate.loop, validateLoop, id]
     cases hb1 : (r.asn == a.asn) <;> cases hb4 : (r.asn != 0)
     · -- other AS, AS0
       have p1 : ¬ r.asn = a.asn := by simpa using hb1
@@ -109,11 +109,11 @@ theorem gen_loop_eq_model (a : Ann) (all l : List Roa) :
 /-- The definition generated from the body of `validate` is the model's `validateCovering` – for
 every announcement and every list of covering ROAs. -/
 theorem gen_validate_eq_model (a : Ann) (covering : List Roa) :
-    toModel (KM.Gen.ValidatedRouteOrigin.validate (fun r : Roa => r.asn) (fun r => r.pfx.covers a.pfx)
+    toModel (KM.Gen.C17.ValidatedRouteOrigin.validate (fun r : Roa => r.asn) (fun r => r.pfx.covers a.pfx)
         Roa.effMax id a a.asn a.pfx.len covering) = validateCovering a covering := by
   have h := gen_loop_eq_model a covering covering [] false false
   simp only [genLoop] at h
-  simp only [KM.Gen.ValidatedRouteOrigin.validate, h, validateCovering, finish]
+  simp only [KM.Gen.C17.ValidatedRouteOrigin.validate, h, validateCovering, finish]
   cases validateLoop a covering false false [] with
   | inl r => rfl
   | inr t => obtain ⟨s, n, i⟩ := t; rfl
@@ -123,7 +123,7 @@ example :
     let r1 : Roa := ⟨1, ⟨.v4, 0, 8⟩, some 16⟩
     let r0 : Roa := ⟨0, ⟨.v4, 0, 8⟩, none⟩
     let g (a : Ann) (cov : List Roa) :=
-      toModel (KM.Gen.ValidatedRouteOrigin.validate (fun r : Roa => r.asn) (fun r => r.pfx.covers a.pfx)
+      toModel (KM.Gen.C17.ValidatedRouteOrigin.validate (fun r : Roa => r.asn) (fun r => r.pfx.covers a.pfx)
         Roa.effMax id a a.asn a.pfx.len cov)
     g ⟨1, ⟨.v4, 0, 16⟩⟩ [r0, r1] = ⟨⟨1, ⟨.v4, 0, 16⟩⟩, .valid r1, []⟩ ∧
     g ⟨1, ⟨.v4, 0, 24⟩⟩ [r0, r1] = ⟨⟨1, ⟨.v4, 0, 24⟩⟩, .invalidLength, [r0, r1]⟩ ∧
